@@ -168,7 +168,9 @@ func (sess *session) delRef(ctx context.Context, fid Fid,
 	ref.Lock()
 	defer ref.Unlock()
 	if ref.Ent == nil {
-		return nil
+		// The fid was only on hold for an attach or walk that did not
+		// complete: it was never bound (see getRef).
+		return ErrUnknownfid
 	}
 
 	return delRefAction(ctx, ref, remove)
